@@ -8,8 +8,8 @@ Deductive part (index-level domain, symbolic H, W, kH <= H, kW <= W):
                   theorem (axiom A3); channels independent;
   fft.normal_eq   every channel of qslst_restore_fft is real(ifft2(X)) with (|h^|^2 + lam) X = conj(h^) b^
                   pointwise in the frequency domain (complex identity by z3), h^ = fft2(pad), b^ = fft2(B_c);
-  matrix path     qslst_restore_matrix computes pinv(A^T A + lam I) A^T vec(B_c) per channel (free algebra;
-                  pinv by its assumed contract), reshaped row-major;
+  matrix path     (bounded only: loops over symbolic image sizes appending to Python lists) agreement with the FFT path and the
+                  normal equations, incl. badly conditioned invertible blurs at lam = 0;
   builders        one generic iteration of each BCCB builder places psf weights at the convolution offsets
                   (per-iteration contracts); guards (boundary, shapes).
 Bounded stand-in: impulse response / mass / path agreement on H,W <= 6, kernels <= image, odd/even, asymmetric."""
@@ -380,6 +380,57 @@ def bounded(rep: Report, tier, seed):
         X = q.qslst_restore_fft(Bq, psf, 1e-14)
         return None if np.allclose(X, X0, atol=1e-6) else {"what": "lam -> 0 does not invert an invertible blur", "err": float(np.abs(X - X0).max())}
     b2.case(f"{P}.bounded.inversion", ("inv",), inv, "inversion at lam -> 0")
+    # invertible but badly conditioned blurs (small |h^| at some frequencies) with lam = 0 / tiny lam: the matrix path must still be the
+    # (pseudo-)inverse solution and agree with the FFT path - a truncated pseudo-inverse would zero those frequencies
+    def near_singular(sig, lam):
+        def f():
+            H, W = 8, 10
+            psf = q.build_psf_gaussian(3, sig)
+            A = conv_matrix(psf, H, W)
+            X0 = np.random.default_rng(seed + 5).standard_normal((H, W, 4))
+            Bq = q.apply_blur_fft(X0, psf)
+            Xm = q.qslst_restore_matrix(Bq, A, lam)
+            Xf = q.qslst_restore_fft(Bq, psf, lam)
+            d = float(np.abs(Xm - Xf).max())
+            if not d <= 1e-4:
+                return {"what": "matrix path differs from the FFT path on a badly conditioned invertible blur", "err": d, "min_singular_value": float(np.linalg.svd(A, compute_uv=False).min())}
+            if lam == 0.0 and not float(np.abs(Xm - X0).max()) <= 1e-4:
+                return {"what": "matrix path with lam = 0 does not invert an invertible blur", "err": float(np.abs(Xm - X0).max())}
+            return None
+        return f
+    def reuse():
+        """two restorations in one process with the same kernel ARRAY whose contents change in between (and a fresh array of the
+        same shape): each result must be the restoration for the kernel contents at the time of the call"""
+        H, W = 5, 6
+        r2 = np.random.default_rng(seed + 9)
+        Bq = r2.standard_normal((H, W, 4))
+        psf = np.array([[0.0, 0.2, 0.0], [0.1, 0.5, 0.1], [0.0, 0.1, 0.0]])
+        psf_first = psf.copy()
+        X1 = q.qslst_restore_fft(Bq, psf, 0.05)
+        psf[0, 1], psf[2, 1] = 0.05, 0.25            # same object, new contents, nothing called in between
+        X2 = q.qslst_restore_fft(Bq, psf, 0.05)
+        ref1 = q.qslst_restore_fft(Bq.copy(), psf_first, 0.05)
+        for t in range(6):                             # fresh temporaries of the same shape
+            k2 = r2.random((3, 3))
+            k2 /= k2.sum()
+            Xa = q.qslst_restore_fft(Bq, k2, 0.05)
+            A = conv_matrix(k2, H, W)
+            for c in range(4):
+                lhs = (A.T @ A + 0.05 * np.eye(H * W)) @ Xa[..., c].reshape(-1)
+                if not np.allclose(lhs, A.T @ Bq[..., c].reshape(-1), atol=1e-8):
+                    return {"what": "restoration with a fresh kernel does not solve its own normal equations (stale state from an earlier call)", "call": t}
+        A = conv_matrix(psf, H, W)
+        for c in range(4):
+            lhs = (A.T @ A + 0.05 * np.eye(H * W)) @ X2[..., c].reshape(-1)
+            if not np.allclose(lhs, A.T @ Bq[..., c].reshape(-1), atol=1e-8):
+                return {"what": "second call with a kernel modified in place used the earlier kernel", "channel": c}
+        if not np.array_equal(X1, ref1):
+            return {"what": "first call differs from the same call on copies"}
+        return None
+    b2.case(f"{P}.bounded.kernel_reuse", ("reuse",), reuse, "repeated restorations with changing kernel contents")
+    for sig in ((1.05,) if tier == "quick" else (1.0, 1.05, 1.1)):
+        for lam in (0.0, 1e-10):
+            b2.case(f"{P}.bounded.matrix_path_near_singular", (sig, lam), near_singular(sig, lam), f"gaussian r=3 sigma={sig} on 8x10, lam={lam}")
     b2.samples.append({"H": 3, "W": 4, "kernel": "2x3", "lam": 0.1})
     b2.done()
 
